@@ -45,6 +45,7 @@ DEFAULT_PROFILE = {
     "allow_begins": True,          # C14 switches this off
     "allow_raw_callbacks": True,   # C14 switches this off
     "allow_regex_nokeep_multi": False,  # regex delimiter not kept that can match different strings (C01 exclusion)
+    "allow_regex_nokeep_single": True,  # regex delimiter not kept that always matches the same string (F2 shows on pack)
     "allow_eos": True,
     "allow_negative": True,        # allow expressions that can go negative (sizes/counts)
     "int_widths": [1, 1, 1, 2, 2, 3, 4, 5, 6, 7, 8, 9, 16],
@@ -190,6 +191,8 @@ class Gen:
             f["rx"] = rid
             f["include"] = rng.random() < 0.5
             if not f["include"] and not REGEXES[rid][1] and not self.p["allow_regex_nokeep_multi"]:
+                f["include"] = True
+            if not f["include"] and REGEXES[rid][1] and not self.p["allow_regex_nokeep_single"]:
                 f["include"] = True
         if mode in ("dyn", "marker", "regex", "eos") and rng.random() < self.p["p_default"] * 0.6:
             f["default"] = rng.choice([b"hi", b"q", b"abc"])
